@@ -129,7 +129,10 @@ pub assume_specification<T: Clone> [ <[T]>::to_vec ] (s: &[T]) -> (r: Vec<T>)
     ensures r@.len() == s@.len(), forall |i: int| 0 <= i < s@.len() ==> cloned(s@[i], #[trigger] r@[i]);
 pub assume_specification<T> [ <[T]>::reverse ] (s: &mut [T]);
 pub assume_specification<T, F: FnMut(&T, &T) -> Ordering> [ <[T]>::sort_by ] (s: &mut [T], f: F);
-pub assume_specification [ str::trim ] (s: &str) -> (r: &str);
+pub uninterp spec fn trimmed(s: Seq<char>) -> Seq<char>;
+pub uninterp spec fn count_char(s: Seq<char>, c: char) -> nat;
+pub assume_specification [ str::trim ] (s: &str) -> (r: &str)
+    ensures r@ == trimmed(s@);
 
 #[verifier::external_body]
 pub fn into_writer_vec(value: &Value, writer: &mut Vec<u8>) -> (r: core::result::Result<(), cbor::ser::Error<<Vec<u8> as ciborium_io::Write>::Error>>)
@@ -138,7 +141,12 @@ pub fn into_writer_vec(value: &Value, writer: &mut Vec<u8>) -> (r: core::result:
 pub fn from_reader_slice(slice: &mut &[u8]) -> (r: core::result::Result<Value, cbor::de::Error<ciborium_io::EndOfFile>>)
 { cbor::de::from_reader(slice) }
 #[verifier::external_body]
+pub fn str_ne_string(a: &str, b: &String) -> (r: bool)
+    ensures r == (a@ != b@)
+{ a != b }
+#[verifier::external_body]
 pub fn str_count_matches(s: &str, c: char) -> (r: usize)
+    ensures r == count_char(s@, c)
 { s.matches(c).count() }
 }
 }
